@@ -172,6 +172,9 @@ func init() {
 			}
 			su := drawWorkload(rng, tier, seed, 3, nb)
 			su.Knobs.MaxGas = drawMaxGas(rng)
+			if rng.Intn(2) == 0 {
+				su.Sess.M["olvm-blockhash"] = true // every replica has the same block store: BLOCKHASH is comparable
+			}
 			k := su.Knobs
 			nrep := 3 + rng.Intn(3)
 			if tier == "thorough" {
